@@ -43,6 +43,12 @@ EDITS = [
     ("C06", TRG, "let satisfied_mlu = (dummy & 0x80000000) != 0;", "let satisfied_mlu = dummy >> 31 == 1;"),
     ("C03", PW, "if slice.len() % 4 != 0 {", "if slice.len() & 3 != 0 {"),
     ("C03", PW, "if slice.len() < 28 {", "if slice.len() <= 27 {"),
+    ("C03", PW, "if flags != 0 && flags != 1 {", "if flags > 1 {"),
+    ("C03", PW, "if chunk_length < min || chunk_length > max {", "if !(min <= chunk_length && chunk_length <= max) {"),
+    ("C03", PW, "let max = slice.len() - 24;\n        let min = max - 3;", "let min = slice.len() - 27;\n        let max = min + 3;"),
+    ("C03", PW, "let expected_crc = !crc32c::crc32c(&slice[0..16]);", "let expected_crc = !crc32c::crc32c(&slice[..16]);"),
+    ("C03", PW, "if header_crc != expected_crc {", "if expected_crc != header_crc {"),
+    ("C03", PW, "let padding = slice[20 + chunk_length..slice.len() - 4].to_vec();", "let padding = slice[chunk_length + 20..slice.len() - 4].to_vec();"),
     ("C05", PW, "let bytes_per_channel = if requested_samples % 2 == 0 {", "let bytes_per_channel = if requested_samples & 1 == 0 {"),
     ("C04", PW, "if chunks.is_empty() {", "if chunks.len() == 0 {"),
     ("C02", A16, "if slice.len() < 16 {", "if 16 > slice.len() {"),
